@@ -119,6 +119,9 @@ func (h *Headers) Deserialize(frh *FrameHeader) error {
 		if err != nil {
 			return err
 		}
+
+		// What is kept has no padding, so the header must not say it has.
+		frh.SetFlags(flags.Del(FlagPadded))
 	}
 
 	if flags.Has(FlagPriority) {
